@@ -32,3 +32,122 @@ def obligations(tier, seed):
     if tier == "thorough":
         add("c19_index_d3_e5", covers=2, desc="rank 3 extents<=5", bounds="extents<=5", timeout=1800)
     return obs
+
+
+# ---------------------------------------------------------------- text IO clause (mirsym on the MIR of rlib_tensor + rlib_io)
+import os, sys, json, subprocess, time, itertools
+from vp import kani as _k
+
+META["functions_encoded"].append("MIR of rlib_tensor::Tensor::{write (Writable), read, eq, index, get_index} + the MIR of rlib_io Writer/Reader (text IO round trip)")
+META["bounds"]["quick"] += "; text IO: every shape of rank 1..3 with extents <= 3 and <= 8 elements (and two rank-4 shapes), symbolic u8 elements with 1-3 decimal digits: written with Writable then Tensor::read of that text = an equal tensor (same shape, same elements)"
+META["outside_claim"] = [x for x in META["outside_claim"] if "Readable/Writable" not in x]
+
+REPLAY_MAIN = '''use rlib_tensor::Tensor;
+use std::io::Write;
+struct Sink(std::rc::Rc<std::cell::RefCell<Vec<u8>>>);
+impl Write for Sink {
+    fn write(&mut self, b: &[u8]) -> std::io::Result<usize> { self.0.borrow_mut().extend_from_slice(b); Ok(b.len()) }
+    fn flush(&mut self) -> std::io::Result<()> { Ok(()) }
+}
+fn main() {
+    let dims: [usize; %(D)d] = %(dims)s;
+    let t = Tensor::<u8, %(D)d>::from_vec(dims, vec!%(elems)s);
+    let buf = std::rc::Rc::new(std::cell::RefCell::new(Vec::new()));
+    { let mut w = rlib_io::Writer::new(Box::new(Sink(buf.clone()))); w.write(&t); }
+    let text = buf.borrow().clone();
+    println!("text={}", text.iter().map(|b| format!("{:02x}", b)).collect::<String>());
+    let mut r = rlib_io::Reader::new(Box::new(std::io::Cursor::new(text)));
+    let back = Tensor::<u8, %(D)d>::read(dims, &mut r);
+    println!("equal={}", back == t);
+}
+'''
+
+
+def _expected_text(dims, elems):
+    sys.path.insert(0, _k.VERIF)
+    from mirsym.tensor_check import expected_text
+    out = b""
+    for kind, x in expected_text(dims, elems):
+        out += str(elems[x]).encode() if kind == "elem" else x.encode()
+    return out
+
+
+def _native_tensor(dims, elems):
+    d = os.path.join(_k.BUILD, "C19", "tensorreplay")
+    os.makedirs(os.path.join(d, "src"), exist_ok=True)
+    open(os.path.join(d, "Cargo.toml"), "w").write('[package]\nname = "vh_tensorreplay"\nversion = "0.0.0"\nedition = "2021"\n\n[workspace]\n\n[dependencies]\nrlib_tensor = { path = "%s/rlib/tensor" }\nrlib_io = { path = "%s/rlib/io" }\n' % (_k.REPO, _k.REPO))
+    open(os.path.join(d, "src", "main.rs"), "w").write(REPLAY_MAIN % {"D": len(dims), "dims": json.dumps(dims), "elems": json.dumps(elems)})
+    env = dict(os.environ); env["CARGO_NET_OFFLINE"] = "true"
+    p = subprocess.run(["cargo", "run", "--offline", "-q", "--release"], cwd=d, env=env, stdout=subprocess.PIPE, stderr=subprocess.PIPE, text=True, timeout=300)
+    return dict(l.split("=") for l in p.stdout.strip().splitlines() if "=" in l), p.stderr[-300:]
+
+
+def _shapes(tier):
+    out = []
+    for D in (1, 2, 3):
+        for dims in itertools.product((1, 2, 3), repeat=D):
+            n = 1
+            for x in dims:
+                n *= x
+            if n <= (8 if tier == "quick" else 12):
+                out.append(list(dims))
+    out += [[1, 2, 1, 2], [2, 1, 2, 2]]
+    return out
+
+
+def _run_shape(arg):
+    dims, nd, io_path, t_path = arg
+    sys.path.insert(0, _k.VERIF)
+    from mirsym.tensor_check import TensorProgram, check_shape
+    from mirsym.core import Unsupported, PathLimit
+    try:
+        P = TensorProgram(open(io_path).read(), open(t_path).read())
+        r = check_shape(P, dims, nd)
+        r["queries"] = r.get("queries", 0) + P.nq
+        return r
+    except (Unsupported, PathLimit) as e:
+        return dict(name="shape %s digits=%d" % (dims, nd), status="INCONCLUSIVE", detail="%s: %s" % (type(e).__name__, e), queries=0, time=0)
+
+
+def run_engine(tier, seed, known, only):
+    from concurrent.futures import ProcessPoolExecutor
+    sys.path.insert(0, _k.VERIF)
+    from mirsym import core
+    out = {"records": [], "violations": [], "known": [], "inconclusive": []}
+    bd = os.path.join(_k.BUILD, "C19", "mir")
+    io = core.dump_mir(_k.REPO, "rlib/io", bd, False, "rel")
+    tt = core.dump_mir(_k.REPO, "rlib/tensor", bd, False, "rel")
+    iop, ttp = os.path.join(bd, "io_used.mir"), os.path.join(bd, "tensor_used.mir")
+    open(iop, "w").write(io); open(ttp, "w").write(tt)
+    shapes = _shapes(tier)
+    args = [(dims, 1 + (i + seed) % 3, iop, ttp) for i, dims in enumerate(shapes)]
+    with ProcessPoolExecutor(max_workers=int(os.environ.get("VERIF_JOBS", "16"))) as ex:
+        results = list(ex.map(_run_shape, args))
+    nv = 0
+    for r in results:
+        rec = {"name": "io " + r["name"], "engine": "mirsym", "status": r["status"], "ok": r["status"] == "PASS", "queries": max(r.get("queries", 0), 1), "time": r.get("time", 0),
+               "desc": "Tensor::read of the text written by Writable == the tensor (elements and shape)", "bounds": r["name"]}
+        out["records"].append(rec)
+        if r["status"] == "INCONCLUSIVE":
+            out["inconclusive"].append({"obligation": rec["name"], "reason": r["detail"]})
+        elif r["status"] == "FAIL":
+            w = r.get("witness") or {}
+            if "elems" not in w:
+                out["inconclusive"].append({"obligation": rec["name"], "reason": "violation without witness: " + r["detail"]})
+                continue
+            nat, err = _native_tensor(w["dims"], w["elems"])
+            exp = _expected_text(w["dims"], w["elems"]).hex()
+            bad = (not nat) or nat.get("equal") != "true"
+            text = "dims=%s elems=%s native=%s expected text=%s %s" % (w["dims"], w["elems"], nat, exp, err if not nat else "")
+            print("  [C19] VIOL %s: %s" % (rec["name"], text[:300]), flush=True)
+            if bad:
+                nv += 1
+                if nv <= 4:
+                    rdir = os.path.join(_k.VERIF, "replays", "C19"); os.makedirs(rdir, exist_ok=True)
+                    path = os.path.join(rdir, "tensor_io_%s.json" % "x".join(map(str, w["dims"])))
+                    json.dump({"property": "C19", "witness": w, "native": text}, open(path, "w"), indent=1)
+                    out["violations"].append("VIOLATION property=C19 replay=%s" % os.path.relpath(path, _k.VERIF))
+            else:
+                out["inconclusive"].append({"obligation": rec["name"], "reason": "model-level violation not reproduced natively: " + text[:200]})
+    print("  [C19] io shapes=%d pass=%d" % (len(results), sum(1 for r in results if r["status"] == "PASS")), flush=True)
+    return out
